@@ -102,7 +102,31 @@ def historyTrace (w : Wiring) (cfg : Config) : ProcState → List (Exec × Sampl
     let r := processSample w cfg σ e s
     r :: historyTrace w cfg r.2 rest
 
+def jInFile (j : Json) : Except String InFile := do
+  let p ← jPair jStr jStr j
+  pure ⟨p.1, p.2⟩
+
+def jYamlEntry (j : Json) : Except String YamlEntry := do
+  pure ⟨← fld j "name" (jOpt jStr), ← fld j "files" (jOpt (jList jInFile)), ← fld j "labels" (jOpt (jList jStr)),
+        ← fld j "illumina" (jOpt (jList jStr))⟩
+
+def jListLine (j : Json) : Except String ListLine := do
+  match j.getObjVal? "header" with
+  | .ok h => pure (.header (← jStr h))
+  | .error _ => pure (.files (← fld j "files" (jList jInFile)) (← fld j "label" (jOpt jStr)))
+
+def ofParsed (r : Option (List ParsedSample)) : Json :=
+  match r with
+  | none => jErr "exit"
+  | some l => ofList (fun s => Json.mkObj [("name", ofStr s.name), ("libs", ofList ofStrList s.libs),
+      ("readable", ofList (fun p => Json.arr #[ofStr p.1, ofStr p.2]) s.readable),
+      ("illumina", ofOpt ofStrList s.illumina)]) l
+
 def ops : List (String × Handler) := [
+  ("parse_yaml", fun j => do
+      pure (ofParsed (parseYaml (← fld j "prefix" jStr) (← fld j "entries" (jList jYamlEntry))))),
+  ("parse_list", fun j => do
+      pure (ofParsed (parseList (← fld j "prefix" jStr) (← fld j "lines" (jList jListLine))))),
   ("wiring_of_source", fun _ => do
       let w := wiringOfSource
       pure (Json.mkObj [("reset_detected", ofBool w.resetDetectedPerTask), ("mono_intronic_from_preset", ofBool w.monoIntronicFromPreset),
